@@ -2,6 +2,7 @@ package props
 
 import (
 	"fmt"
+	"go/types"
 	"sort"
 	"strings"
 
@@ -407,7 +408,7 @@ func checkAllResults(c *fw.Ctx, rule string, fn *ssa.Function, name string) {
 	okFail := false
 	if len(failEdge.To.Instrs) > 0 {
 		if r, isR := failEdge.To.Instrs[len(failEdge.To.Instrs)-1].(*ssa.Return); isR {
-			paths := fw.ErrNilSuccess(fn, fw.ErrIndex(fn), nil)(r, map[*ssa.BasicBlock]bool{failEdge.To: true}, nil)
+			paths := multiErrSuccess(fn, nil)(r, map[*ssa.BasicBlock]bool{failEdge.To: true}, nil)
 			okFail = len(paths) == 0
 		}
 	}
@@ -433,7 +434,7 @@ func checkAllResults(c *fw.Ctx, rule string, fn *ssa.Function, name string) {
 	removed := map[fw.Edge]bool{{From: header, To: header.Succs[1]}: true}
 	reach := fw.Reachable(fn, removed)
 	var esc []string
-	succ := fw.ErrNilSuccess(fn, fw.ErrIndex(fn), fw.IsTail(func(n string) bool { return false }))
+	succ := multiErrSuccess(fn, fw.IsTail(func(n string) bool { return false }))
 	for _, r := range fw.Returns(fn) {
 		// returns before the loop (error returns) are classified by the success function
 		for _, sp := range succ(r, reach, removed) {
@@ -446,4 +447,21 @@ func checkAllResults(c *fw.Ctx, rule string, fn *ssa.Function, name string) {
 	hs := fw.Sig(header.Instrs[len(header.Instrs)-1].(*ssa.If).Cond)
 	stepOK := strings.Contains(hs, "phi(-1|") && strings.Contains(hs, "+ 1)")
 	c.Check(len(esc) == 0 && stepOK, rule, construct, c.P.Pos(fw.InstrPos(site)), "", fmt.Sprintf("a success return is reachable from inside the results loop without exhausting it (%s), or the loop does not visit every index (%v)", strings.Join(esc, ","), stepOK))
+}
+
+// multiErrSuccess: success returns of a function that may hand back more than one error-typed
+// result (e.g. `(failure, err error)`): a return is a failure exit when any of them is known
+// to be non-nil there, not only the last one.
+func multiErrSuccess(fn *ssa.Function, tail func(ssa.CallInstruction) bool) fw.SuccessFn {
+	base := fw.ErrNilSuccess(fn, fw.ErrIndex(fn), tail)
+	ei := fw.ErrIndex(fn)
+	errT := types.Universe.Lookup("error").Type()
+	return func(r *ssa.Return, reach map[*ssa.BasicBlock]bool, removed map[fw.Edge]bool) []fw.SuccessPath {
+		for j, res := range r.Results {
+			if j != ei && types.Identical(res.Type(), errT) && fw.KnownNonNil(res, r.Block()) {
+				return nil
+			}
+		}
+		return base(r, reach, removed)
+	}
 }
